@@ -168,6 +168,51 @@ func c07Layout(repo, out string, args []string) error {
 		}
 		return true
 	})
+	// ---- corner gather: the first record loop of WriteMesh and the record loop of ReadMesh, statement by statement
+	gather := func(f *ast.File, fname string, pick func(int) bool) ([]string, error) {
+		fd := fn(f, fname)
+		if fd == nil {
+			return nil, fmt.Errorf("func %s not found", fname)
+		}
+		k := 0
+		var out []string
+		for _, st := range fd.Body.List {
+			var body *ast.BlockStmt
+			switch l := st.(type) {
+			case *ast.ForStmt:
+				body = l.Body
+			case *ast.RangeStmt:
+				body = l.Body
+			default:
+				continue
+			}
+			if pick(k) {
+				for _, bs := range body.List {
+					if _, isIf := bs.(*ast.IfStmt); isIf {
+						continue // the normal choice of ReadMesh is regenerated by mode c07.normals
+					}
+					if ds, isDecl := bs.(*ast.DeclStmt); isDecl {
+						out = append(out, strconv.Quote(c07Src(fset, ds)))
+						continue
+					}
+					out = append(out, strconv.Quote(c07Src(fset, bs)))
+				}
+			}
+			k++
+		}
+		if len(out) == 0 {
+			return nil, fmt.Errorf("%s: record loop not found", fname)
+		}
+		return out, nil
+	}
+	wg, err := gather(wf, "WriteMesh", func(k int) bool { return k == 0 })
+	if err != nil {
+		return err
+	}
+	rg, err := gather(rf, "ReadMesh", func(k int) bool { return k == 0 })
+	if err != nil {
+		return err
+	}
 	var b strings.Builder
 	b.WriteString("/-\n  GENERATED by /verif/go/facts (mode c07.layout) from /repo/formats/stl/binary.go, read.go, write.go.\n  Do not edit: regenerated by ./check C07 before every build.\n-/\nnamespace PolyVerif.Gen.StlLayout\n\n")
 	fmt.Fprintf(&b, "/-- `type Header [%s]byte` -/\ndef headerBytes : Nat := %s\n\n", hlen, hlen)
@@ -176,6 +221,8 @@ func c07Layout(repo, out string, args []string) error {
 	fmt.Fprintf(&b, "/-- `Read`: every `binary.Read(in, <order>, <target>)` with the declaration of the target, in source order -/\ndef readSteps : List String :=\n  [%s]\n\n", strings.Join(steps, ",\n   "))
 	fmt.Fprintf(&b, "/-- `Read`: what happens to the error of each top-level `if err := binary.Read(…)` -/\ndef readErrors : List String :=\n  [%s]\n\n", strings.Join(checked, ", "))
 	fmt.Fprintf(&b, "/-- `Write`: every `out.Write` / `binary.Write(out, <order>, <value>)`, in source order -/\ndef writeSteps : List String :=\n  [%s]\n\n", strings.Join(wsteps, ",\n   "))
+	fmt.Fprintf(&b, "/-- `WriteMesh`: body of the first record loop (corner gather through `Tri(i)`, narrowing to float32, record fields) -/\ndef writeGather : List String :=\n  [%s]\n\n", strings.Join(wg, ",\n   "))
+	fmt.Fprintf(&b, "/-- `ReadMesh`: body of the record loop without the normal choice (three fresh vertices per record, identity indices, one normal per corner) -/\ndef readGather : List String :=\n  [%s]\n\n", strings.Join(rg, ",\n   "))
 	b.WriteString("end PolyVerif.Gen.StlLayout\n")
 	return os.WriteFile(out, []byte(b.String()), 0o644)
 }
